@@ -241,9 +241,10 @@ func hWireEnc(o Op) (out map[string]interface{}) {
 
 // fragReader returns data in fragments of the scheduled sizes
 type fragReader struct {
-	data  []byte
-	sizes []int
-	k     int
+	data        []byte
+	sizes       []int
+	k           int
+	eofWithData bool
 }
 
 func (r *fragReader) Read(b []byte) (int, error) {
@@ -263,6 +264,9 @@ func (r *fragReader) Read(b []byte) (int, error) {
 	}
 	copy(b, r.data[:n])
 	r.data = r.data[n:]
+	if r.eofWithData && len(r.data) == 0 {
+		return n, io.EOF // the last bytes of the stream arrive together with io.EOF
+	}
 	return n, nil
 }
 
@@ -302,7 +306,7 @@ func hFrames(o Op) (out map[string]interface{}) {
 	if extra := o.hex("extra"); extra != "" {
 		stream = append(stream, []byte(extra)...)
 	}
-	rs := util.NewProtoStream(context.Background(), &fragReader{data: stream, sizes: intList(o.arr("frag"))}, nil)
+	rs := util.NewProtoStream(context.Background(), &fragReader{data: stream, sizes: intList(o.arr("frag")), eofWithData: o.boolean("eof_with_data")}, nil)
 	var got []*types.Packet
 	var snaps []*types.Packet
 	var ms0, ms1 runtime.MemStats
